@@ -63,9 +63,52 @@ func TestC06_SmallKernels(t *testing.T) {
 				av, ai := lv.genElem(t, "alpha")
 				scale := make([]ref.V, n)
 				res := make([]ref.V, n)
+				q := f.p
+				maxSum := uniP(t, 7, "maxsum") == 0
+				if maxSum {
+					// alpha = -1: every accumulated coordinate alpha*scale is q - scale
+					av, ai = F.Neg(F.One()), lv.info(F.Neg(F.One()), "minus_one(max_sum)")
+				}
+				accCls := map[string]bool{}
 				for i := 0; i < n; i++ {
 					scale[i] = ref.V{f.coef(t, "s")}
+					if maxSum && uniP(t, 1, "s1") == 0 {
+						scale[i] = ref.V{big.NewInt(1)}
+					}
 					res[i], _ = lv.genElem(t, "r")
+					// constructed relations between res[i] and acc = alpha*scale[i], coordinate-wise:
+					// the unreduced sum res.c + acc.c lands on q (exact cancellation: result 0),
+					// q-1 (result q-1, no reduction), q+1 (result 1), 2q-2 (largest possible sum)
+					acc := ref.Red(f.naive[0], F.Mul(av, lv.embed(0, scale[i])))
+					c := uni(t, lv.deg(), "coord")
+					cl := "indep"
+					rel := uni(t, 8, "rel")
+					if maxSum && scale[i][0].Cmp(big.NewInt(1)) == 0 && uniP(t, 1, "force") == 0 {
+						c, rel = 0, 5 // acc.c0 = q-1 and res.c0 = q-1: the largest unreduced sum
+					}
+					switch rel {
+					case 0:
+						res[i], cl = F.Neg(acc), "cancel_all"
+					case 1, 2:
+						res[i] = append(ref.V{}, ref.Red(f.naive[0], res[i])...)
+						res[i][c], cl = new(big.Int).Mod(new(big.Int).Neg(acc[c]), q), "cancel_coord"
+					case 3:
+						res[i] = append(ref.V{}, ref.Red(f.naive[0], res[i])...)
+						res[i][c], cl = new(big.Int).Mod(new(big.Int).Sub(big.NewInt(-1), acc[c]), q), "coord_qm1"
+					case 4:
+						res[i] = append(ref.V{}, ref.Red(f.naive[0], res[i])...)
+						res[i][c], cl = new(big.Int).Mod(new(big.Int).Sub(big.NewInt(1), acc[c]), q), "coord_one"
+					case 5:
+						res[i] = append(ref.V{}, ref.Red(f.naive[0], res[i])...)
+						res[i][c], cl = new(big.Int).Sub(q, big.NewInt(1)), "res_qm1"
+					}
+					if cl == "cancel_coord" && acc[c].Sign() == 0 {
+						cl = "cancel_coord(acc=0)"
+					}
+					if s := new(big.Int).Add(ref.Red(f.naive[0], res[i])[c], acc[c]); s.Cmp(new(big.Int).Sub(new(big.Int).Lsh(q, 1), big.NewInt(2))) == 0 {
+						cl = "max_sum_2q-2"
+					}
+					accCls["acc:"+cl] = true
 				}
 				alpha := lv.new(av)
 				sc := f.sliceAt(0, scale, off1)
@@ -83,7 +126,16 @@ func TestC06_SmallKernels(t *testing.T) {
 				if n == 0 {
 					tail = "len=0"
 				}
-				rep.Case(test, key("MulAccE4", n, off1, off2, av, anysKey(scale), anysKey(res)), n%4 != 0 || n == 0 || ai.zeroBlk, op, tail, "alpha:"+ai.class)
+				labels := []string{op, tail, "alpha:" + ai.class}
+				for _, cl := range []string{"acc:indep", "acc:cancel_all", "acc:cancel_coord", "acc:cancel_coord(acc=0)", "acc:coord_qm1", "acc:coord_one", "acc:res_qm1", "acc:max_sum_2q-2"} {
+					if accCls[cl] {
+						labels = append(labels, cl)
+						if n%4 == 0 && n > 0 {
+							labels = append(labels, cl+",len%4=0") // the AVX-512 kernel takes these lengths
+						}
+					}
+				}
+				rep.Case(test, key("MulAccE4", n, off1, off2, av, anysKey(scale), anysKey(res)), true, labels...)
 			case "BatchInvertE2", "BatchInvertE4":
 				li := 1
 				if op == "BatchInvertE4" {
